@@ -1,17 +1,79 @@
-"""C07 — see checks/connfamily.py (shared engine of the connection family) and coq/Properties/C07.v."""
+"""C07 — see checks/connfamily.py (shared engine of the connection family) and coq/Properties/C07.v.
+
+The callback "given at connect time" is the one the user passes to APIClient.start_connection(on_stop=...): besides the
+connection-level stories (where the hook of APIConnection is observed), multi-session stories are run on the real APIClient
+(vlib/clienttrace.py) and the user's callback must be invoked exactly for the connection-level stop calls, with the same
+argument, in the same order - in particular never for an attempt that did not reach the connected state, whatever the client
+is asked to do with it."""
+import json
+import random
+
 from checks import connfamily
 
 VFILE = "Properties/C07.v"
 RULE = ("stories = hand-picked same-turn/close-window scenarios + (thorough) every position x every single extra event of base stories "
         "+ random connect/traffic/close stories with hop-delayed injections (vlib/connstories.py); each story runs on the real APIConnection "
         "under the virtual-time loop with every event-loop callback labelled, the model must accept the label sequence with equal "
-        "projections/observations, and the C07 predicate is evaluated on the implementation's trace; non-trivial = the connection closes "
-        "within a story of at least 8 labelled callbacks; distinct by label sequence")
+        "projections/observations, and the C07 predicate is evaluated on the implementation's trace; plus multi-session stories on the "
+        "real APIClient where the user's stop callback is compared with the connection-level stop calls; non-trivial = the connection "
+        "closes within a story of at least 8 labelled callbacks; distinct by label sequence")
+
+
+def client_predicate(tr):
+    """the user's callback calls = the established sessions' stop calls (argument and order)"""
+    from aioesphomeapi.connection import ConnectionState as S
+    conn_stops = [int(o[4:]) for _, _, obs in tr.steps for o in obs if o.startswith("STOP")]
+    user = [int(bool(x)) for x in tr.user_stops]
+    ended = [cn for cn in tr.conns if id(cn) in tr.established and cn.connection_state is S.CLOSED]
+    if len(user) > len(ended):
+        return ("C07/user-callback-extra", f"the stop callback given at connect time was invoked {len(user)} time(s) {user}, but only {len(ended)} of the "
+                f"{len(tr.conns)} connection(s) of this client ever reached the connected state and ended")
+    if user == conn_stops:
+        return None
+    if len(user) > len(conn_stops):
+        return ("C07/user-callback-extra", f"the stop callback given at connect time was invoked {len(user)} time(s) {user}, but only {len(conn_stops)} "
+                f"session(s) that had reached the connected state ended {conn_stops}")
+    if len(user) < len(conn_stops):
+        return ("C07/user-callback-missing", f"{len(conn_stops)} established session(s) ended {conn_stops}, the stop callback given at connect time was invoked {len(user)} time(s) {user}")
+    return ("C07/user-callback-argument", f"the stop callback was invoked with {user}, the sessions ended with {conn_stops}")
 
 
 def run(rep, tier, seed):
     connfamily.run(rep, tier, seed, "C07", VFILE, RULE)
+    from checks import c19
+    rng = random.Random(seed + 7)
+    stories = [s for s in c19.windows() if s.get("hook", True)]
+    stories += [c19.gen_story(rng) for _ in range(150 if tier == "quick" else 2000)]
+    for st in stories:
+        st = dict(st, hook=True)
+        tr = c19.run_impl(st)
+        labels = [l for l, _, _ in tr.steps if l != "silent"]
+        rep.case(("client",) + tuple(labels), nontrivial=bool(tr.user_stops), sample=None)
+        rep.bump("client-story")
+        bad = client_predicate(tr)
+        if bad is not None:
+            def still(s2, sig=bad[0]):
+                b2 = client_predicate(c19.run_impl(s2))
+                return b2 is not None and b2[0] == sig
+            small = connfamily.shrink(st, still) if not any(s == bad[0] for s, _, _ in rep.violations) else st
+            tr3 = c19.run_impl(small)
+            b3 = client_predicate(tr3) or bad
+            rep.violation(bad[0], b3[1], {"kind": "client-story", "story": connfamily.story_text(small),
+                                          "callbacks": [(l, p, o) for l, p, o in tr3.steps if l != "silent"][-30:], "user_stops": [bool(x) for x in tr3.user_stops]})
 
 
 def replay(path):
+    d = json.loads(open(path).read())["replay"]
+    if d.get("kind") == "client-story":
+        from checks import c19
+        from vlib import common
+        common.setup_impl_path()
+        connfamily.N_REG = connfamily.n_registered()
+        st = connfamily.story_from_json(d["story"])
+        tr = c19.run_impl(st)
+        for l, p, o in tr.steps:
+            if l != "silent":
+                print(l, "|", p, "|", ",".join(o))
+        print("user stop callback calls:", tr.user_stops, "->", client_predicate(tr))
+        return 0
     return connfamily.replay(path, "C07")
